@@ -2454,9 +2454,16 @@ fn main() {
                         "window_reopen_with_echo" => {
                             use fe2o3_amqp_types::performatives::Flow;
                             let mut reopened = false;
-                            let peer = tokio::spawn(sp::run(peer_io, sp::PeerCfg::default(), move |f: &Frame, _log: &[String]| {
+                            let cfg = sp::PeerCfg { credit: None, ..Default::default() };
+                            let peer = tokio::spawn(sp::run(peer_io, sp::PeerCfg { credit: None, ..Default::default() }, move |f: &Frame, _log: &[String]| {
                                 let mut act = sp::Act::default();
                                 match &f.body {
+                                    FrameBody::Attach(a) => {
+                                        // link credit 100, but a session window of ONE frame
+                                        act.replies = sp::default_answers(f, &cfg).0;
+                                        act.replies.push(Frame::new(f.channel, FrameBody::Flow(Flow { next_incoming_id: Some(0), incoming_window: 1, next_outgoing_id: 0, outgoing_window: 2048, handle: Some(a.handle.clone()), delivery_count: Some(0), link_credit: Some(100), available: None, drain: false, echo: false, properties: None })));
+                                        act.handled = true;
+                                    }
                                     FrameBody::Begin(b) => {
                                         let mut b = b.clone();
                                         b.remote_channel = Some(f.channel);
@@ -2466,7 +2473,9 @@ fn main() {
                                     }
                                     FrameBody::Transfer { performative, .. } if !reopened => {
                                         reopened = true;
-                                        act.replies.push(Frame::new(f.channel, FrameBody::Flow(Flow { next_incoming_id: Some(1), incoming_window: 10, next_outgoing_id: 0, outgoing_window: 2048, handle: Some(performative.handle.clone()), delivery_count: Some(1), link_credit: Some(100), available: None, drain: false, echo: true, properties: None })));
+                                        // give the client time to queue the other two behind the closed window
+                                        act.pause_ms = 300;
+                                        act.late_replies.push(Frame::new(f.channel, FrameBody::Flow(Flow { next_incoming_id: Some(1), incoming_window: 10, next_outgoing_id: 0, outgoing_window: 2048, handle: Some(performative.handle.clone()), delivery_count: Some(1), link_credit: Some(100), available: None, drain: false, echo: true, properties: None })));
                                     }
                                     _ => {}
                                 }
